@@ -33,8 +33,50 @@ def edit_only_regions(ctx, facts):
     return out, sites
 
 
+def flag_source(ctx, facts):
+    """R4: the value stored in the flag field is the parsed command line's, unmodified: traced from every
+    construction of a struct with a `check_mode` field back through parameters and helper returns, the only
+    source is the result of clap's parse (a default, a constant, a negation or a recomputed value would run
+    the edit path although --check was given)"""
+    from ..prov import Prov
+    from ..interproc import expand
+    sites = []
+    for b in facts.non_test_bodies():
+        for bb in sorted(b.reachable_blocks()):
+            for st in b.blocks[bb]["stmts"]:
+                if st["k"] != "assign" or st["rv"]["k"] != "agg" or st["rv"].get("agg") != "adt":
+                    continue
+                fields = st["rv"].get("fields", [])
+                for i, fn in enumerate(fields):
+                    if fn == "check_mode" and i < len(st["rv"]["ops"]):
+                        sites.append((b, bb, st, st["rv"]["ops"][i]))
+    ctx.check(len(sites) >= 1, "C04-R4", "flag-store-anchor", "a struct with a `check_mode` field is constructed (%d sites)" % len(sites),
+              sites[0][0].where(sites[0][1]) if sites else "")
+    for (b, bb, st, op) in sites:
+        pr = Prov(b, interproc=True)
+        org = expand(facts, b, pr.origins_op(op), interproc=True)
+        good, other = [], []
+        for o in org:
+            if o[0] == "call" and o[1].matches(r"clap::Parser>?::(parse|parse_from|try_parse|try_parse_from)$"):
+                good.append(o[1])
+            else:
+                other.append(o)
+
+        def show(o):
+            if o[0] == "call":
+                return "call " + o[1].name
+            if o[0] == "const":
+                return "const " + str(dict(o[1]).get("text", dict(o[1])))
+            return str(o[0])
+        ctx.check(bool(good) and not other, "C04-R4", "flag-source|%s" % b.id,
+                  "the check flag stored at this site comes only from the parsed command line (clap parse: %d; other sources: %s)"
+                  % (len(good), sorted(show(o) for o in other) or "none"), b.where(bb))
+
+
 def run(ctx):
     facts = ctx.bin
+    from .confimm import rule_config_as_loaded
+    rule_config_as_loaded(ctx, facts, "C04-R4")
     cg = CallGraph(facts)
     regions, sites = edit_only_regions(ctx, facts)
     ctx.check(len(sites) >= 1, "C04-R1", "dispatch-anchor",
@@ -83,6 +125,7 @@ def run(ctx):
         ctx.check(bool(hit), "C04-R3", "control|%s" % pat,
                   "control: the edit path reaches a mutator matching %s (%s)" % (pat, ", ".join(sorted(hit)) or "none"),
                   "callgraph")
+    flag_source(ctx, facts)
     ctx.assume("external functions outside the fs-capable namespaces (sa/fsapi.py FS_NAMESPACES) do not modify the filesystem")
     ctx.assume("nested closures / async blocks of a reachable function are reachable; trait impls of local types are "
                "reachable from any external generic call that mentions the type")
